@@ -261,12 +261,14 @@ func (m *modelL2) stepDeposit(x *opchildtypes.MsgFinalizeTokenDeposit, bc blockC
 		case hs.Class == "hungry":
 			// 150 transfers: whether they fit the allowance is the implementation's gas schedule, not the model's business
 			expect = triBand
-			if m.SeqUnsure[hs.Signer] || hs.Seq != m.AcctSeq[hs.Signer] || m.evalGoodHook(hs, to, x.Amount) == triNo {
+			if !m.SeqUnsure[hs.Signer] && (hs.Seq != m.AcctSeq[hs.Signer] || m.evalGoodHook(hs, to, x.Amount) == triNo) {
 				expect = triNo
 			}
+		case hs.Class == "wdhook" && m.SeqUnsure[hs.Signer]:
+			expect = triBand // the signer's account sequence is not known until the end of the block
 		case hs.Class == "wdhook":
 			expect = triNo
-			if !m.SeqUnsure[hs.Signer] && hs.Seq == m.AcctSeq[hs.Signer] {
+			if hs.Seq == m.AcctSeq[hs.Signer] {
 				// the denom pair of this deposit is registered before the hook runs
 				sc := m.clone()
 				if _, ok := sc.Pairs[x.Amount.Denom]; !ok {
@@ -384,20 +386,36 @@ func (m *modelL2) stepDeposit(x *opchildtypes.MsgFinalizeTokenDeposit, bc blockC
 // evalGoodHook decides whether a well-formed hook can succeed now.
 func (m *modelL2) evalGoodHook(hs *hookSpec, to []byte, dep sdk.Coin) tri {
 	signer := []byte(keyAddrOf(hs.Signer))
-	need := map[string]*big.Int{}
+	// replay the transfers one after the other on the signer's balances (a transfer to oneself nets to zero)
+	have := map[string]*big.Int{}
+	bal := func(d string) *big.Int {
+		if v, ok := have[d]; ok {
+			return v
+		}
+		v := new(big.Int).Set(m.Bal.get(signer, d))
+		if bytes.Equal(signer, to) && d == dep.Denom {
+			v.Add(v, dep.Amount.BigInt())
+		}
+		have[d] = v
+		return v
+	}
+	if hs.Withdraw != nil {
+		b := bal(hs.Withdraw.Amount.Denom)
+		if b.Cmp(hs.Withdraw.Amount.Amount.BigInt()) < 0 {
+			return triNo
+		}
+		b.Sub(b, hs.Withdraw.Amount.Amount.BigInt())
+	}
 	for _, s := range hs.Sends {
-		bump(need, s.Denom, s.Amount)
 		if m.Blocked[string(s.To)] {
 			return triNo
 		}
-	}
-	for d, n := range need {
-		have := new(big.Int).Set(m.Bal.get(signer, d))
-		if bytes.Equal(signer, to) && d == dep.Denom {
-			have.Add(have, dep.Amount.BigInt())
-		}
-		if have.Cmp(n) < 0 {
+		b := bal(s.Denom)
+		if b.Cmp(s.Amount) < 0 {
 			return triNo
+		}
+		if !bytes.Equal(s.To, signer) {
+			b.Sub(b, s.Amount)
 		}
 	}
 	if m.Params.HookMaxGas < uint64(150_000+120_000*len(hs.Sends)) {
@@ -405,7 +423,6 @@ func (m *modelL2) evalGoodHook(hs *hookSpec, to []byte, dep sdk.Coin) tri {
 	}
 	return triYes
 }
-
 
 // ---- user withdrawal ----
 func (m *modelL2) stepWithdraw(x *opchildtypes.MsgInitiateTokenWithdrawal, bc blockCtx) stepOut {
